@@ -198,4 +198,43 @@ def run(ctx):
                           {"case_file": r["case_file"], "replay_cmd": f"{exe} run {r['case_file']}", "parameters": {a: b for a, b in par.items()},
                            "transmitted_lsf": c["tx"]["lsf"], "detail": detail})
     ctx.coverage["steady_reception_reached"] = f"{nsteady} of {len(cases)} transmissions"
+    long_enough = sum(1 for c in cases if c["par"]["secs"] >= 2)
+    if nsteady * 4 < long_enough:
+        # the property is conditional on steady reception: a run in which (almost) no transmission gets there has checked nothing
+        ctx.broken.append(("oracle", "c03-oracle-vacuous", f"only {nsteady} of {long_enough} transmissions of >= 2 s reached steady reception "
+                           f"(eight consecutive bit-exact frames); the unchanged tree reaches it in about 5 of 6; see C06 for the acquisition failure itself"))
+        ctx.log(f"oracle vacuous: steady reception reached in {nsteady} of {long_enough} transmissions")
+    run_corpus(ctx, exe)
     ctx.coverage["acquisition_frame_histogram"] = {str(k): acq.count(k) for k in sorted(set(a for a in acq if a is not None))}
+
+
+def run_corpus(ctx, exe):
+    """kept reproducers (selftest/corpus/C03-*.json + .case): run on every check, judged by the same oracle"""
+    import json
+    cdir = VERIF / "selftest" / "corpus"
+    metas = sorted(cdir.glob("C03-*.json"))
+    cases = []
+    for m in metas:
+        meta = json.loads(m.read_text())
+        text = (cdir / meta["case"]).read_text()
+        par = dict(meta["par"])
+        for line in text.splitlines():
+            t = line.split()
+            if len(t) > 9 and t[:2] == ["seg", "tx"] and t[2] == "1":
+                par.update({"tau": float(t[3]), "ppm": float(t[4]), "gain": float(t[5]), "dc": float(t[6])})
+        par["earlier_lsfs"] = meta.get("earlier_lsfs", [])
+        cases.append({"name": "corpus_" + m.stem, "text": text, "trace": False, "tx": meta["tx"], "par": par, "what": meta.get("what", "")})
+    if not cases:
+        return
+    results = c03rig.run_cases(ctx, exe, None, cases)
+    for c, r in zip(cases, results):
+        if r["rc"] != 0 or not r["main"]:
+            ctx.tie_broken("c03-corpus-run", f"harness failed on {c['name']} rc={r['rc']}")
+            continue
+        status, what, detail = c03rig.oracle_c03(r, c["tx"], r["main"][-1])
+        ctx.case(c["name"], nontrivial=True)
+        ctx.count("corpus")
+        if status == "violation":
+            k = classify(r, c["par"], what, detail)
+            ctx.violation(k, f"corpus case {c['name']} ({c['what']}): {what}",
+                          {"case_file": r["case_file"], "replay_cmd": f"{exe} run {r['case_file']}", "parameters": c["par"], "detail": detail})
